@@ -83,6 +83,7 @@ def main():
     os.dup2(tmp_err.fileno(), 2)
 
     ns = {'__name__': '__main__'}
+    state_before = interpreter_state()
     try:
         for i, stmt in enumerate(job['program']):
             try:
@@ -92,6 +93,9 @@ def main():
                 res['error'] = {'stmt': i, 'text': stmt, 'type': type(e).__name__, 'message': str(e)[:400]}
                 break
         res['warnings_at_import'] = len(caught)
+        state_after = interpreter_state()
+        res['state_changed'] = {k: [state_before[k], state_after[k]] for k in state_before
+                                if state_before[k] != state_after[k]}
         if res['ok']:
             res['probe'] = run_probe(job['probe'], res)
     finally:
@@ -113,6 +117,44 @@ def main():
     res['modules_loaded'] = sorted(k for k in sys.modules if k.split('.')[0] in ('bs4', 'soupsieve'))
     with open(out_path, 'w') as f:
         json.dump(res, f)
+
+
+def interpreter_state():
+    """Process-wide interpreter state that defining a package has no business changing."""
+
+    import gc
+    import locale
+    import logging
+    import signal
+    import threading
+    st = {}
+    st['warnings.filters'] = repr(warnings.filters)
+    st['warnings.showwarning'] = getattr(warnings.showwarning, '__qualname__', repr(warnings.showwarning))
+    st['sys.path'] = list(sys.path)
+    st['recursionlimit'] = sys.getrecursionlimit()
+    st['switchinterval'] = sys.getswitchinterval()
+    st['cwd'] = os.getcwd()
+    st['environ'] = sorted(os.environ.items())
+    st['excepthook'] = sys.excepthook is sys.__excepthook__
+    st['displayhook'] = sys.displayhook is sys.__displayhook__
+    st['unraisablehook'] = sys.unraisablehook is sys.__unraisablehook__
+    st['stdout'] = sys.stdout is sys.__stdout__
+    st['stderr'] = sys.stderr is sys.__stderr__
+    st['threads'] = threading.active_count()
+    st['gc'] = (gc.isenabled(), gc.get_threshold())
+    st['locale'] = locale.setlocale(locale.LC_ALL)
+    st['logging.root'] = (logging.root.level, len(logging.root.handlers), logging.raiseExceptions)
+    st['logging.disable'] = logging.root.manager.disable
+    for name in ('SIGINT', 'SIGTERM', 'SIGALRM', 'SIGPIPE', 'SIGUSR1'):
+        sig = getattr(signal, name, None)
+        if sig is not None:
+            h = signal.getsignal(sig)
+            st['signal.' + name] = h if isinstance(h, int) else getattr(h, '__qualname__', repr(h))
+    st['trace'] = (sys.gettrace() is None, sys.getprofile() is None)
+    # sys.meta_path / sys.path_hooks are deliberately not watched: third-party dependencies of bs4 (six, used by
+    # html5lib) install an importer there, which is not soupsieve's doing
+    st['dont_write_bytecode'] = sys.dont_write_bytecode
+    return st
 
 
 def run_probe(probe, res):
